@@ -26,6 +26,8 @@ func runC03(w *World) *Result {
 	r.Rule("R-C03-init", "helper routines give their counters / accumulators a value before updating them from themselves", 2)
 	r.Rule("R-C03-numcmp", "Bash test commands order numbers with -lt/-le/-gt/-ge, never with < or > (text order)", 1)
 	r.Rule("R-C03-handle", "writing an element or copying elements never rebinds the slice variable itself (aliases stay aliases of the same storage)", 4)
+	r.Rule("R-C03-booltext", "truth values (also the zero value that fills gaps of a bool slice) become text through the driver's own 1/0 renderer, never through the standard library", 1)
+	BoolTextRule(w, r, "R-C03-booltext")
 	r.Rule("R-C03-scratch", "a helper keeps no state in a non-local variable that a helper it calls assigns", 1)
 	r.Rule("R-C03-wiring", "slice / string operations: name, index, value, bounds and flags reach the Converter parameter they belong to", 10)
 	WiringRule(w, r, "R-C03-wiring", func(m string) bool {
@@ -1473,5 +1475,55 @@ func SliceHandleRule(w *World, b *Backend, r *Result, rule string) {
 		} else {
 			r.Ok(rule, key, pos, fmt.Sprintf("none of the %d lines of %s assigns the slice variable itself", len(lines), m))
 		}
+	}
+}
+
+// BoolTextRule: truth values reach the scripts as 1 and 0, through the one function of the
+// driver that renders them (literals, zero values of bool elements, flags). A truth value
+// rendered by the standard library ("true"/"false") is a different text: a gap filled with
+// it, or a default taken from it, compares unequal to every bool the script computes.
+func BoolTextRule(w *World, r *Result, rule string) {
+	n, renderers := 0, 0
+	for _, role := range []string{"transpiler", "bash", "batch"} {
+		for _, fn := range w.Funcs(role) {
+			// the renderer itself: func(bool) string with constant results
+			if fn.Signature.Params().Len() == 1 && isBool(fn.Signature.Params().At(0).Type()) && fn.Signature.Results().Len() == 1 && isString(fn.Signature.Results().At(0).Type()) && fn.Signature.Recv() == nil {
+				renderers++
+			}
+			perFn := 0
+			for _, b := range fn.Blocks {
+				for _, ins := range b.Instrs {
+					c, ok := ins.(*ssa.Call)
+					if !ok {
+						continue
+					}
+					name := calleeName(c)
+					bad := ""
+					switch {
+					case name == "strconv.FormatBool":
+						bad = "strconv.FormatBool"
+					case strings.HasPrefix(name, "fmt.Sprint") || name == "fmt.Sprintf":
+						for _, a := range c.Call.Args {
+							for _, e := range append(variadicElems(a), a) {
+								if mi, ok := e.(*ssa.MakeInterface); ok && isBool(mi.X.Type()) {
+									bad = name + " of a bool"
+								}
+							}
+						}
+					}
+					if bad == "" {
+						continue
+					}
+					n++
+					perFn++
+					r.Bad(rule, fmt.Sprintf("booltext:%s#%d", FuncName(fn), perFn), w.Pos(c.Pos()), "a truth value is turned into text by "+bad+" (\"true\"/\"false\") instead of the driver's renderer (1/0): the scripts compare and print bools as 1 and 0, so this value is neither")
+				}
+			}
+		}
+	}
+	if renderers == 0 {
+		r.Bad(rule, "booltext:renderer", "-", "no function func(bool) string found in the driver or the back ends: how truth values become text is not recognisable")
+	} else if n == 0 {
+		r.Ok(rule, "booltext:none", "-", fmt.Sprintf("no truth value is rendered by the standard library (%d renderer function(s) of the product)", renderers))
 	}
 }
